@@ -38,6 +38,8 @@ pub enum STok {
     /// `1b1b1b1b 1a p` + CRC of the stream from the `from`-th most recent START occurrence
     End { pad: u8, from: u8, align: bool, honest_pad: bool },
     EndGarbage { pad: u8, c1: u8, c2: u8 },
+    /// the inner token lowered `times` times in a row (many transmissions / boundaries on one object)
+    Rep(Box<STok>, usize),
 }
 
 fn idx(x: u16, len: usize) -> usize {
@@ -135,36 +137,45 @@ fn start_occurrences_rev(out: &[u8], want: usize) -> Option<usize> {
 pub fn lower_stream(toks: &[STok]) -> Vec<u8> {
     let mut out = Vec::new();
     for t in toks {
-        match t {
-            STok::Start => out.extend_from_slice(&START),
-            STok::Frame(p) => out.extend_from_slice(&ref_frame(&p.bytes())),
-            STok::Mut { p, m, refix } => out.extend_from_slice(&mutate_frame(&ref_frame(&p.bytes()), m, *refix)),
-            STok::Esc(k) => out.extend(std::iter::repeat(0x1b).take(*k)),
-            STok::Zeros(k) => out.extend(std::iter::repeat(0).take(*k)),
-            STok::LitEsc => out.extend_from_slice(&[0x1b; 8]),
-            STok::Rand(v) => out.extend_from_slice(v),
-            STok::Byte(b) => out.push(*b),
-            STok::Noise { byte, len } => out.extend(std::iter::repeat(*byte).take(*len)),
-            STok::PartialStart(k) => out.extend_from_slice(&START[..(*k).min(8)]),
-            STok::End { pad, from, align, honest_pad } => {
-                let s = start_occurrences_rev(&out, *from as usize).unwrap_or(0);
-                let mut pad = *pad;
-                if *align {
-                    let n = (4 - (out.len() - s) % 4) % 4;
-                    out.extend(std::iter::repeat(0).take(n));
-                    if *honest_pad {
-                        pad = n as u8;
-                    }
-                }
-                out.extend_from_slice(&[0x1b, 0x1b, 0x1b, 0x1b, 0x1a, pad]);
-                let crc = crc16_x25(&out[s..]);
-                out.push((crc & 0xff) as u8);
-                out.push((crc >> 8) as u8);
-            }
-            STok::EndGarbage { pad, c1, c2 } => out.extend_from_slice(&[0x1b, 0x1b, 0x1b, 0x1b, 0x1a, *pad, *c1, *c2]),
-        }
+        lower_tok(t, &mut out);
     }
     out
+}
+
+fn lower_tok(t: &STok, out: &mut Vec<u8>) {
+    match t {
+        STok::Start => out.extend_from_slice(&START),
+        STok::Frame(p) => out.extend_from_slice(&ref_frame(&p.bytes())),
+        STok::Mut { p, m, refix } => out.extend_from_slice(&mutate_frame(&ref_frame(&p.bytes()), m, *refix)),
+        STok::Esc(k) => out.extend(std::iter::repeat(0x1b).take(*k)),
+        STok::Zeros(k) => out.extend(std::iter::repeat(0).take(*k)),
+        STok::LitEsc => out.extend_from_slice(&[0x1b; 8]),
+        STok::Rand(v) => out.extend_from_slice(v),
+        STok::Byte(b) => out.push(*b),
+        STok::Noise { byte, len } => out.extend(std::iter::repeat(*byte).take(*len)),
+        STok::PartialStart(k) => out.extend_from_slice(&START[..(*k).min(8)]),
+        STok::End { pad, from, align, honest_pad } => {
+            let s = start_occurrences_rev(out, *from as usize).unwrap_or(0);
+            let mut pad = *pad;
+            if *align {
+                let n = (4 - (out.len() - s) % 4) % 4;
+                out.extend(std::iter::repeat(0).take(n));
+                if *honest_pad {
+                    pad = n as u8;
+                }
+            }
+            out.extend_from_slice(&[0x1b, 0x1b, 0x1b, 0x1b, 0x1a, pad]);
+            let crc = crc16_x25(&out[s..]);
+            out.push((crc & 0xff) as u8);
+            out.push((crc >> 8) as u8);
+        }
+        STok::EndGarbage { pad, c1, c2 } => out.extend_from_slice(&[0x1b, 0x1b, 0x1b, 0x1b, 0x1a, *pad, *c1, *c2]),
+        STok::Rep(inner, times) => {
+            for _ in 0..*times {
+                lower_tok(inner, out);
+            }
+        }
+    }
 }
 
 /// Pad-count bytes: mostly 0..=5, but also the boundaries of every plausible counter width.
@@ -212,6 +223,31 @@ pub fn noise_len(max: usize) -> BoxedStrategy<usize> {
     }
 }
 
+/// Tiny payloads (0..=12 bytes, G1 token shapes and tails) for tokens that are repeated many times.
+pub fn tiny_payload() -> impl Strategy<Value = SizedPayload> {
+    (super::payload::payload_small(), 0usize..13, any::<u64>()).prop_map(|(shape, len, seed)| SizedPayload { shape, len: Some(len), seed })
+}
+
+/// Repetition counts: a few, around 2^8, and anything up to 700.
+pub fn rep_times() -> impl Strategy<Value = usize> {
+    prop_oneof![6 => 2usize..9, 2 => 250usize..262, 2 => 9usize..700]
+}
+
+/// A cheap token to be repeated: tiny valid frame, tiny broken frame, bare start, forged end, escape, short noise.
+pub fn rep_inner() -> BoxedStrategy<STok> {
+    prop_oneof![
+        6 => tiny_payload().prop_map(STok::Frame),
+        4 => (tiny_payload(), mutation(), prop::bool::weighted(0.7)).prop_map(|(p, m, refix)| STok::Mut { p, m, refix }),
+        1 => Just(STok::Start),
+        1 => Just(STok::LitEsc),
+        1 => (1usize..8).prop_map(STok::PartialStart),
+        1 => (1usize..6).prop_map(STok::Esc),
+        1 => vec(any::<u8>(), 1..4).prop_map(STok::Rand),
+        2 => (pad_byte(), 0u8..3, prop::bool::weighted(0.7), prop::bool::weighted(0.6)).prop_map(|(pad, from, align, honest_pad)| STok::End { pad, from, align, honest_pad }),
+    ]
+    .boxed()
+}
+
 pub fn stok(big: bool) -> BoxedStrategy<STok> {
     let max_noise = if big { 140_000 } else { 3000 };
     let payload = if big { sized_payload(70_000).boxed() } else { moderate_payload().boxed() };
@@ -228,6 +264,7 @@ pub fn stok(big: bool) -> BoxedStrategy<STok> {
         2 => (1usize..8).prop_map(STok::PartialStart),
         8 => (pad_byte(), 0u8..3, prop::bool::weighted(0.7), prop::bool::weighted(0.6)).prop_map(|(pad, from, align, honest_pad)| STok::End { pad, from, align, honest_pad }),
         1 => (pad_byte(), any::<u8>(), any::<u8>()).prop_map(|(pad, c1, c2)| STok::EndGarbage { pad, c1, c2 }),
+        1 => (rep_inner(), rep_times()).prop_map(|(t, n)| STok::Rep(Box::new(t), n)),
     ]
     .boxed()
 }
